@@ -7,6 +7,7 @@ import (
 	"flag"
 	"fmt"
 	"os"
+	"os/exec"
 	"path/filepath"
 	"sort"
 	"strconv"
@@ -183,6 +184,106 @@ func cmdCheck(args []string) int {
 	s := newSolver(*tier)
 	s.solveAll(obs)
 
+	// thorough tier: vacuity guard, second-solver cross-check, must-fail corpus for this property
+	thorough := map[string]interface{}{}
+	var vacuous []string
+	var disagreements []*Obligation
+	if *tier == "thorough" {
+		// (a) every function must have a reachable return under its contract
+		var covers []*Obligation
+		for _, fc := range fcs {
+			for _, ob := range fc.obs {
+				if ob.Kind == "cover" {
+					covers = append(covers, ob)
+				}
+			}
+		}
+		cs := &Solver{dir: s.dir, quickS: 5, slowS: 10, workers: 16}
+		cs.solveAll(covers)
+		reach := map[string]string{}
+		for _, ob := range covers {
+			st := "unknown"
+			if ob.Result != nil {
+				st = ob.Result.Status
+			}
+			if st == "sat" || reach[ob.Func] == "" || (reach[ob.Func] == "unsat" && st != "unsat") {
+				if reach[ob.Func] != "sat" {
+					reach[ob.Func] = st
+				}
+			}
+		}
+		nReach := 0
+		for _, fc := range fcs {
+			switch reach[fc.name] {
+			case "sat":
+				nReach++
+			case "unsat":
+				vacuous = append(vacuous, fc.name)
+			}
+		}
+		thorough["vacuity_guard"] = fmt.Sprintf("%d of %d functions have a return path whose assumptions are satisfiable (solver answered sat); %d contradictory; the rest undecided by the solver within 10 s", nReach, len(fcs), len(vacuous))
+		// (b) cross-check with a second solver
+		agree, undecided := 0, 0
+		type xr struct {
+			ob *Obligation
+			st string
+		}
+		ch := make(chan *Obligation)
+		res := make(chan xr)
+		for w := 0; w < 16; w++ {
+			go func() {
+				for ob := range ch {
+					second := "z3"
+					if ob.Result.Backend == "z3" || ob.Result.Backend == "cvc5" || ob.Result.Backend == "cvc5-enum" {
+						second = "z3-new"
+					}
+					text := ob.smt(false)
+					f := filepath.Join(s.dir, "x-"+sanitize(ob.Name)+fmt.Sprintf("-%p.smt2", ob))
+					os.WriteFile(f, []byte(text), 0o644)
+					st, _, _ := runSolver(second, 10, f)
+					os.Remove(f)
+					res <- xr{ob, st}
+				}
+			}()
+		}
+		var todo []*Obligation
+		for _, ob := range obs {
+			if ob.Result != nil && ob.Result.Status == "unsat" && ob.Result.Backend != "syntactic" {
+				todo = append(todo, ob)
+			}
+		}
+		go func() {
+			for _, ob := range todo {
+				ch <- ob
+			}
+			close(ch)
+		}()
+		for range todo {
+			r := <-res
+			switch r.st {
+			case "unsat":
+				agree++
+			case "sat":
+				disagreements = append(disagreements, r.ob)
+			default:
+				undecided++
+			}
+		}
+		thorough["cross_check"] = fmt.Sprintf("%d discharged obligation instances re-run on a second solver (10 s): %d agree, %d undecided there, %d disagree", len(todo), agree, undecided, len(disagreements))
+		// (c) must-fail corpus: mutants and seeded changes of this property must be reported
+		if os.Getenv("FVC_NO_SELFTEST") == "" && os.Getenv("FVC_REPO") == "" {
+			cmd := exec.Command(filepath.Join(vdir, "selftest", "run.sh"), P)
+			cmd.Env = append(os.Environ(), "FVC_NO_SELFTEST=1")
+			out, _ := cmd.CombinedOutput()
+			det := strings.Count(string(out), ": detected")
+			miss := strings.Count(string(out), ": MISSED")
+			thorough["must_fail_corpus"] = fmt.Sprintf("%d deliberate or seeded property-breaking changes for %s applied to scratch copies: %d reported, %d missed", det+miss, P, det, miss)
+			if miss > 0 {
+				thorough["must_fail_missed"] = string(out)
+			}
+		}
+	}
+
 	// group
 	named := map[string]*namedOb{}
 	var order []string
@@ -230,6 +331,14 @@ func cmdCheck(args []string) int {
 	}
 	for _, g := range gfFailed {
 		viols = append(viols, violation{name: "globalfact", detail: map[string]interface{}{"obligation": "globalfact", "reason": g}})
+	}
+	for _, fn := range vacuous {
+		viols = append(viols, violation{name: fn + "#vacuous", detail: map[string]interface{}{"obligation": fn + "#vacuous", "function": fn,
+			"reason": "the assumptions on every return path of this function are contradictory: its obligations hold vacuously (a requires clause or invariant excludes everything)"}})
+	}
+	for _, ob := range disagreements {
+		viols = append(viols, violation{name: ob.Name + "#solver-disagreement", detail: map[string]interface{}{"obligation": ob.Name, "function": ob.Func,
+			"reason": "discharged by " + ob.Result.Backend + " but a second solver reports a counterexample", "smt2": ob.smt(true)}})
 	}
 	for _, sw := range sweeps {
 		n := &namedOb{Name: sw.Name, Func: "package", Kind: "sweep", Clause: sw.Clause, Instances: 1, Backends: map[string]int{}}
@@ -302,6 +411,7 @@ func cmdCheck(args []string) int {
 			}
 		}
 	}
+	evidenceExtra = thorough
 	writeEvidenceFull(evPath, P, *tier, seed, named, order, fcs, notes, secs, nviol, u, gfCount, len(gfFailed))
 	nOK := 0
 	for _, name := range order {
@@ -329,6 +439,8 @@ func writeReplay(vdir, P, name string, detail map[string]interface{}) string {
 func writeEvidence(path, P, tier string, seed int, named map[string]*namedOb, order []string, notes []string, secs float64, nviol int, u *Universe) {
 	writeEvidenceFull(path, P, tier, seed, named, order, nil, notes, secs, nviol, u, 0, 0)
 }
+
+var evidenceExtra map[string]interface{}
 
 func writeEvidenceFull(path, P, tier string, seed int, named map[string]*namedOb, order []string, fcs []*FuncCtx, notes []string, secs float64, nviol int, u *Universe, gfCount, gfFailed int) {
 	discharged := gfCount - gfFailed
@@ -384,6 +496,7 @@ func writeEvidenceFull(path, P, tier string, seed int, named map[string]*namedOb
 			"discharged_by_backend":    backends,
 			"solver_seconds":           solverSecs,
 			"samples":                  samples,
+			"thorough_extras":          evidenceExtra,
 		},
 		"assumptions": assumptions,
 		"wall_s":      secs,
